@@ -14,6 +14,7 @@ import json
 import os
 import re
 import shutil
+import signal
 import subprocess
 import sys
 import tempfile
@@ -197,8 +198,13 @@ def run_check(prop, tier, replay=None):
             try:
                 rc = p.wait(timeout=max(1, hard - (time.time() - t0)))
             except subprocess.TimeoutExpired:
-                p.kill()
-                p.wait()
+                # Ask the Go runtime for a goroutine dump before killing.
+                p.send_signal(signal.SIGQUIT)
+                try:
+                    p.wait(timeout=10)
+                except subprocess.TimeoutExpired:
+                    p.kill()
+                    p.wait()
                 rc = None
             log.close()
             text = open(log.name, errors="replace").read()
@@ -209,6 +215,12 @@ def run_check(prop, tier, replay=None):
                     res = json.load(open(out))
                 except ValueError:
                     res = None
+            if rc is None or (res is None and not (REPO_PANIC.search(text) and "go-storethehash" in text)):
+                # Keep the output of a shard that hung or died for diagnosis.
+                ip = os.path.join(REPLAYS, prop, "infra-%s-s%d-%d.log" % (tier, seed, sh))
+                os.makedirs(os.path.dirname(ip), exist_ok=True)
+                open(ip, "w").write(text[-200000:])
+                infra.append("output of shard %d kept in %s" % (sh, ip))
             if rc is None:
                 infra.append("shard %d exceeded the hard time limit of %ds" % (sh, hard))
             if res is None:
